@@ -2367,10 +2367,161 @@ fn conversion_table(rep: &mut SearchReport) -> Result<(), String> {
     Ok(())
 }
 
+// ---------------------------------------------------------------------------------------------
+// call order: a setting and a request issued one after the other are processed in that order
+
+struct OrderCtx {
+    ch: *mut rodbus_ffi::ClientChannel,
+    write_slot: SlotRef,
+    read_done: Arc<Mutex<Vec<Got>>>,
+    rcs: Arc<Mutex<Vec<i32>>>,
+}
+
+extern "C" fn order_read_complete(it: *mut rodbus_ffi::RegisterValueIterator<'_>, ctx: *mut c_void) {
+    unsafe {
+        let mut v = Vec::new();
+        loop {
+            let p = ffi::rodbus_register_value_iterator_next(it);
+            if p.is_null() {
+                break;
+            }
+            v.push(((*p).index, (*p).value));
+        }
+        let c = &*(ctx as *const OrderCtx);
+        c.read_done.lock().unwrap().push(Got::Regs(v));
+        // from inside the completion callback (the only runtime thread is busy with it):
+        // disable the channel, then submit a write
+        let rc1 = ffi::rodbus_client_channel_disable(c.ch);
+        let rc2 = ffi::rodbus_client_channel_write_single_register(
+            c.ch,
+            ffi::RequestParam { unit_id: 1, timeout: 1000 },
+            ffi::RegisterValue { index: 7, value: 0xCAFE },
+            write_callback(&c.write_slot),
+        );
+        c.rcs.lock().unwrap().extend_from_slice(&[rc1, rc2]);
+        std::thread::sleep(Duration::from_millis(30));
+    }
+}
+
+extern "C" fn order_read_failure(err: c_int, ctx: *mut c_void) {
+    unsafe {
+        let c = &*(ctx as *const OrderCtx);
+        c.read_done.lock().unwrap().push(Got::Err(format!("{}", err)));
+    }
+}
+
+extern "C" fn order_destroy(_ctx: *mut c_void) {}
+
+/// Rust API: `disable().await` followed by a write gives NoConnection and nothing on the wire,
+/// because settings and requests travel through one queue. The same two calls through the C
+/// ABI - made from a completion callback on a one-thread runtime, where nothing else can run in
+/// between - must have the same outcome.
+fn call_order_table(rep: &mut SearchReport) -> Result<(), String> {
+    let long = Duration::from_secs(5);
+    // ---- Rust API
+    let peer = Peer::start();
+    let rt = crate::net::rt(1);
+    let states: Arc<Mutex<Vec<String>>> = Default::default();
+    let channel = {
+        let _g = rt.enter();
+        rodbus::client::spawn_tcp_client_task(
+            HostAddr::ip("127.0.0.1".parse().unwrap(), peer.port),
+            16,
+            rodbus::doubling_retry_strategy(Duration::from_millis(10), Duration::from_millis(10)),
+            DecodeLevel::nothing(),
+            Some(Box::new(RustStates { log: states.clone() })),
+        )
+    };
+    rt.block_on(channel.enable()).map_err(|_| "enable failed")?;
+    if !wait_state(&states, "Connected", long) {
+        return Err("INFRA: Rust channel not connected".to_string());
+    }
+    let rust: Got = rt.block_on(async {
+        let param = RequestParam::new(UnitId::new(1), Duration::from_millis(1000));
+        let _ = channel.read_holding_registers(param, AddressRange::try_from(1, 1).unwrap()).await;
+        let _ = channel.disable().await;
+        match channel.write_single_register(param, Indexed::new(7, 0xCAFE)).await {
+            Ok(_) => Got::WriteOk,
+            Err(e) => Got::Err(expected_name(&e)),
+        }
+    });
+    let rust_writes = peer.seen.lock().unwrap().iter().filter(|(_, pdu)| pdu.first() == Some(&6)).count();
+    drop(channel);
+    drop(rt);
+    drop(peer);
+    // ---- C ABI
+    let peer = Peer::start();
+    let frt = FfiRuntime::new(1)?;
+    let fc = FfiClient::create(&frt, peer.port, 16, decode_level(0, 0, 0))?;
+    if fc.enable() != 0 {
+        return Err("rodbus_client_channel_enable failed".to_string());
+    }
+    if !wait_state(&fc.states, "Connected", long) {
+        return Err("INFRA: C-ABI channel not connected".to_string());
+    }
+    let write_slot: SlotRef = Default::default();
+    let ctx = Box::leak(Box::new(OrderCtx {
+        ch: fc.ch,
+        write_slot: write_slot.clone(),
+        read_done: Default::default(),
+        rcs: Default::default(),
+    }));
+    let cb = ffi::RegisterReadCallback {
+        on_complete: Some(order_read_complete),
+        on_failure: Some(order_read_failure),
+        on_destroy: Some(order_destroy),
+        ctx: ctx as *mut OrderCtx as *mut c_void,
+    };
+    let rc = unsafe {
+        ffi::rodbus_client_channel_read_holding_registers(
+            fc.ch,
+            ffi::RequestParam { unit_id: 1, timeout: 1000 },
+            ffi::AddressRange { start: 1, count: 1 },
+            cb,
+        )
+    };
+    if rc != 0 {
+        return Err(format!("read_holding_registers through the C ABI returned {}", rc));
+    }
+    let got = wait_slot(&write_slot, long);
+    std::thread::sleep(Duration::from_millis(50));
+    let c_writes = peer.seen.lock().unwrap().iter().filter(|(_, pdu)| pdu.first() == Some(&6)).count();
+    let rcs = ctx.rcs.lock().unwrap().clone();
+    let read_done = ctx.read_done.lock().unwrap().clone();
+    let case = json!({"table": "call_order"});
+    rep.stats.evaluations += 1;
+    if !matches!(read_done.first(), Some(Got::Regs(_))) {
+        return Err(format!("INFRA: the read that carries the callback completed with {:?}", read_done));
+    }
+    if rcs != vec![0, 0] {
+        fail(rep, format!("call order: disable and write issued from a completion callback returned {:?}", rcs), case);
+        return Ok(());
+    }
+    if got.len() != 1 || got[0] != rust || c_writes != rust_writes {
+        fail(
+            rep,
+            format!(
+                "call order: disable() followed by write_single_register: the Rust API gives {:?} with {} write requests on the wire; the same two calls through the C ABI (from a completion callback, one runtime thread) give {:?} with {} write requests on the wire",
+                short(&rust),
+                rust_writes,
+                got.iter().map(short).collect::<Vec<_>>(),
+                c_writes
+            ),
+            case,
+        );
+        return Ok(());
+    }
+    rep.stats.nontrivial_total += 1;
+    rep.stats.distinct.insert(crate::runner::hash_of(&"call_order".to_string()));
+    *rep.stats.labels.entry("call_order_rows".to_string()).or_insert(0) += 1;
+    fc.destroy();
+    Ok(())
+}
+
 pub fn c18_tables(ctx: &Ctx) -> SearchReport {
     let mut rep = SearchReport::empty(
         "c18_tables",
-        "differential tables, every row visited: (1) 8 client operations x {12 successes with random unit/range/values, each of the 256 exception codes, malformed reply, reply of another function, silence (timeout), close, malformed MBAP header} through the Rust API and through the extern \"C\" functions against the same scripted peer: identical request bytes on the wire, identical values, error reported as the same-named ffi::RequestError value, exactly one completion callback; (2) not connected / queue full (capacity 1, silent peer) / runtime destroyed: return code and exactly one callback; (3) 4 write callbacks x WriteResult {success, 9 standard exceptions, raw 0..255}: the raw TCP client must receive the echo or [fc|0x80, code]; (4) all 36 decode levels: log classes of a C-ABI server equal those of a Rust server at the same-named level; (5) configuration pass-through: reconnect waits of a C-ABI client with retry (40 ms, 130 ms) measured through its listener; 120 serial-setting combinations (baud x data bits x parity x stop bits x flow control): termios of a pty opened through the C ABI equals termios of a pty opened through the Rust API with the same-named values; 54 TLS client and 48 TLS server configurations created through the C ABI (minimum version x versions the peer offers x certificate mode x expected name incl. the '*' switch x configured / presented certificates x authorization): created iff the Rust API accepts the same-named configuration, and a rustls peer is served iff the Rust API would serve it; max_sessions of a C-ABI server in {1,2,3,5}: one connection too many closes exactly the first; 48 requests of all eight kinds to a C-ABI TLS server with authorization callbacks: exactly the callback of that kind runs, with the unit id, range or index and the (UTF-8) role of the client certificate unchanged, Deny gives exception 01 and Allow the normal reply; the library's own enum conversions applied to every member (serial settings 216 combinations, 36 decode levels, connection and port states, authorization answers, TLS enums) and the delays of converted retry strategies. Non-trivial = every row other than a plain success.",
+        "differential tables, every row visited: (1) 8 client operations x {12 successes with random unit/range/values, each of the 256 exception codes, malformed reply, reply of another function, silence (timeout), close, malformed MBAP header} through the Rust API and through the extern \"C\" functions against the same scripted peer: identical request bytes on the wire, identical values, error reported as the same-named ffi::RequestError value, exactly one completion callback; (2) not connected / queue full (capacity 1, silent peer) / runtime destroyed: return code and exactly one callback; call order: disable followed by a write, issued from a completion callback on a one-thread runtime, has the outcome the Rust API gives for disable().await followed by the write (no-connection, nothing on the wire); (3) 4 write callbacks x WriteResult {success, 9 standard exceptions, raw 0..255}: the raw TCP client must receive the echo or [fc|0x80, code]; (4) all 36 decode levels: log classes of a C-ABI server equal those of a Rust server at the same-named level; (5) configuration pass-through: reconnect waits of a C-ABI client with retry (40 ms, 130 ms) measured through its listener; 120 serial-setting combinations (baud x data bits x parity x stop bits x flow control): termios of a pty opened through the C ABI equals termios of a pty opened through the Rust API with the same-named values; 54 TLS client and 48 TLS server configurations created through the C ABI (minimum version x versions the peer offers x certificate mode x expected name incl. the '*' switch x configured / presented certificates x authorization): created iff the Rust API accepts the same-named configuration, and a rustls peer is served iff the Rust API would serve it; max_sessions of a C-ABI server in {1,2,3,5}: one connection too many closes exactly the first; 48 requests of all eight kinds to a C-ABI TLS server with authorization callbacks: exactly the callback of that kind runs, with the unit id, range or index and the (UTF-8) role of the client certificate unchanged, Deny gives exception 01 and Allow the normal reply; the library's own enum conversions applied to every member (serial settings 216 combinations, 36 decode levels, connection and port states, authorization answers, TLS enums) and the delays of converted retry strategies. Non-trivial = every row other than a plain success.",
     );
     let steps: Vec<(&str, Box<dyn Fn(&mut SearchReport) -> Result<(), String>>)> = vec![
         ("client_table", Box::new({
@@ -2378,6 +2529,7 @@ pub fn c18_tables(ctx: &Ctx) -> SearchReport {
             move |r: &mut SearchReport| client_table(r, seed, None)
         })),
         ("client_conditions", Box::new(client_conditions)),
+        ("call_order_table", Box::new(call_order_table)),
         ("server_table", Box::new(server_table)),
         ("decode_table", Box::new(decode_table)),
         ("retry_passthrough", Box::new(retry_passthrough)),
